@@ -329,6 +329,25 @@ func init() {
 				}
 			}
 		}
+		// the first read ends inside the first marker (after 1..8 of its bytes), with and without text before it:
+		// an unknown marker or an invalid first segment must still be reported
+		if small := texts["fedWireMessage-BankTransfer.txt"]; small != "" {
+			var without1500 []string
+			for _, sg := range splitSegments(small) {
+				if !strings.HasPrefix(sg, "{1500}") {
+					without1500 = append(without1500, sg)
+				}
+			}
+			allow := &wire.ValidateOpts{AllowMissingSenderSupplied: true}
+			for _, pre := range []string{"", "HEADER LINE\n", strings.Repeat("x", 4091)} {
+				for k := 1; k <= 8; k++ {
+					rec(pre+"{9999}ANYTHING*\n"+small, 0, []int{len(pre) + k}, io.EOF, "nil", nil)
+					rec(pre+"{1500}3\n"+strings.Join(without1500, "\n"), 0, []int{len(pre) + k}, io.EOF, "nil", allow)
+				}
+				rec(pre+"{9999}ANYTHING*\n"+small, 1, nil, io.EOF, "nil", nil)
+				rec(pre+"{9999}ANYTHING*\n"+small, 0, nil, io.EOF, "nil", nil)
+			}
+		}
 		// markers wrapped over a line break: the re-split after removing line breaks must see them
 		if small := texts["fedWireMessage-BankTransfer.txt"]; small != "" {
 			base := doRead(small, 0, nil, io.EOF, "nil", nil)
